@@ -218,6 +218,26 @@ fn check_tree(vars: &[(Name, Val)], e: &E, alt: Option<&E>) -> Result<(bool, Vec
             }
         }
     }
+    // 1c. the expression as the predicate of an IF: false is 0, everything else is true
+    if src.len() <= 800 {
+        let got_if = run_line(&mut term, &format!("IF {} THEN PRINT \"T\" ELSE PRINT \"F\"", src));
+        let ok = match &want {
+            Ok(Val::Str(_)) => got_if.starts_with("?TYPE MISMATCH"),
+            Ok(v) => {
+                let zero = match v {
+                    Val::Int(n) => *n == 0,
+                    Val::Sng(x) => *x == 0.0,
+                    Val::Dbl(x) => *x == 0.0,
+                    Val::Str(_) => false,
+                };
+                got_if == if zero { "F\n" } else { "T\n" }
+            }
+            Err(f) => matches_fault(&got_if, f),
+        };
+        if !ok {
+            return Err(("predicate".into(), ctx(&format!("IF {} THEN PRINT \"T\" ELSE PRINT \"F\"", src), &got_if, &got)));
+        }
+    }
     // 2. any legal parenthesisation prints the same
     if let Some(a) = alt {
         let asrc = render(a);
@@ -298,6 +318,29 @@ fn check_tree(vars: &[(Name, Val)], e: &E, alt: Option<&E>) -> Result<(bool, Vec
             }
             // reset the target so that the next probe starts from the default
             let _ = run_line(&mut term, &format!("{}={}", target, if ty == Ty::Str { "\"\"" } else { "0" }));
+        }
+    }
+    // 5. undecorated targets take their type from DEFtype at run time
+    if let Ok(v) = &want {
+        for (prefix, target, ty) in [("DEFDBL Q", "Q7", Ty::Dbl), ("DEFINT J", "J7", Ty::Int), ("DEFSTR U", "U7", Ty::Str)] {
+            let conv = convert(ty, v).map(|x| stored(&x));
+            let line = format!("{}={}:PRINT {}", target, src, target);
+            if line.len() > 900 {
+                continue;
+            }
+            // DEFtype first (it may drop variables), then the operands, then the store
+            let mut t3 = Term::new();
+            let _ = run_line(&mut t3, prefix);
+            let _ = run_line(&mut t3, &setup_line(vars));
+            let got = run_line(&mut t3, &line);
+            let line = format!("{} / {} / {}", prefix, setup_line(vars), line);
+            let ok = match &conv {
+                Ok(cv) => printed_matches(&got, cv, fl.approx),
+                Err(code) => matches_fault(&got, &Fault::Code(*code)),
+            };
+            if !ok {
+                return Err(("assignment".into(), ctx(&format!("{} (value {:?} stored in an undecorated variable typed {:?} by DEFtype)", line, v, ty), &got, &format!("{:?}", conv.as_ref().map(|c| fmt_num(c))))));
+            }
         }
     }
     let mut ops = vec![];
